@@ -33,7 +33,15 @@ RECURSIVE DecodeEach(_, _, _)
 DecodeEach(bss, i, acc) == IF i > Len(bss) THEN acc ELSE DecodeEach(bss, i + 1, Append(acc, Decode(bss[i])))
 DecodeList(bss) == DecodeEach(bss, 1, <<>>)
 
-Abs(s) == St(Decode(s.line), s.cur, DecodeList(s.hist), s.nav, Decode(s.prompt))
+(* The logged state, made structurally sound: a cursor or recall position   *)
+(* outside its range (a defect that C05 / C10 / C03 report through RawOk)    *)
+(* is clamped, so that every other property can still be judged on the line  *)
+(* the implementation really holds.                                          *)
+Clamp(x, hi) == IF x < 0 THEN 0 ELSE IF x > hi THEN hi ELSE x
+Abs(s) == LET line == Decode(s.line)
+              hist == DecodeList(s.hist)
+          IN St(line, Clamp(s.cur, Len(line)), hist, Clamp(s.nav, Len(hist)), Decode(s.prompt))
+RawOk(s) == s.cur >= 0 /\ s.cur <= Len(Decode(s.line)) /\ s.nav >= 0 /\ s.nav <= Len(s.hist)
 
 RECURSIVE ChunksFrom(_, _, _)
 ChunksFrom(cs, i, acc) ==
@@ -103,8 +111,8 @@ ChkRes == Focus \in {"ALL", "C14"}
 ChkInv == Focus \in {"ALL", "C03", "C05", "C10"}
 
 Match(out, k, r, post) ==
-    /\ CmpLine(k) => (post.line = out.st.line /\ post.cur = out.st.cur)
-    /\ CmpHist => (post.hist = out.st.hist /\ post.nav = out.st.nav)
+    /\ CmpLine(k) => (post.line = out.st.line /\ r.st.cur = out.st.cur)
+    /\ CmpHist => (post.hist = out.st.hist /\ r.st.nav = out.st.nav)
     /\ CmpPrompt => post.prompt = out.st.prompt
     /\ CmpCalls => AbsCalls(r.calls) = out.calls
 
@@ -144,7 +152,7 @@ Common(r, post, t2) ==
     /\ ChkSync => Chk(<<"C06 terminal does not show prompt + line with the cursor in place",
                          [row |-> t2.row, col |-> t2.col, err |-> t2.err], post>>,
                       (r.res = "ok" /\ insync) => Sync(t2, post))
-    /\ ChkInv => Chk(<<"state invariant", post>>, post.cur >= 0 /\ post.nav >= 0 /\ StOk(cfg', post))
+    /\ ChkInv => Chk(<<"state invariant", r.st>>, RawOk(r.st) /\ StOk(cfg', post))
     /\ ChkRes => Chk(<<"C14 result does not report the sink failure", r.res, r.fired>>, (r.res = "err") <=> (r.fired > 0))
 
 -----------------------------------------------------------------------------
@@ -181,6 +189,9 @@ ByteRec(r, pre, post) ==
             Chk(<<"C14 state after a failed call is not the old line, the new line or an empty line",
                   key, pre, post, r.calls>>,
                 \E out \in KeyStep(cfg, pre, key, hs) : FailMatch(out, r, pre, post))
+      /\ (ChkFresh /\ key.k = "enter" /\ r.res = "ok" /\ insync /\ ~term.err) =>
+            Chk(<<"C01 the line dispatched is not the line visible when Enter was pressed", term.row, pre>>,
+                TrimRight(term.row) = TrimRight(pre.prompt \o pre.line))
       /\ (ChkFresh /\ key.k = "enter" /\ r.res = "ok") =>
             Chk(<<"C01 after Enter: empty line and one fresh prompt", post, t2.rows, t2.row, t2.col>>,
                 /\ post.line = <<>> /\ post.cur = 0
